@@ -280,8 +280,10 @@ func (c *compiler) compileType(y *Type, parent Leafable, isUnion bool) error {
 		resolvedMeta := Find(parent, y.path)
 		if resolvedMeta == nil {
 			return fmt.Errorf("%s - %s path cannot be resolved", SchemaPath(parent), y.ident)
+		} else if target, isLeaf := resolvedMeta.(HasType); isLeaf {
+			y.delegate = target.Type()
 		} else {
-			y.delegate = resolvedMeta.(HasType).Type()
+			return fmt.Errorf("%s - %s path does not lead to a leaf or leaf-list", SchemaPath(parent), y.ident)
 		}
 	} else {
 		y.delegate = y
